@@ -1,12 +1,12 @@
 # C05 — output is in global timestamp order when enqueues respect the grace period (dispatch kernel only)
 import importlib.util, os
 _spec = importlib.util.spec_from_file_location('c03', os.path.join(os.path.dirname(__file__), 'C03.py')); _m = importlib.util.module_from_spec(_spec); _m.Q = Q; _spec.loader.exec_module(_m)
-QUERIES = [q for q in _m.QUERIES if q.name.startswith('K3_min_dispatch')]
-BOUNDS = 'K3: 2 contexts x <= 2 buffered events'
-OUTSIDE = 'the timestamp hold-back in the read loop (K1 harness exists but CBMC runs out of memory), the once-per-pass computation of ts_now from the clock and the grace period, has_pending_events_for_caching..., the poll/exit batch loops and the end-to-end ordering argument are NOT solved; backtrace replays are the documented exception'
+QUERIES = [q for q in _m.QUERIES if q.name.startswith('K3_min_dispatch') or q.name.startswith('K1_read_decode')]
+BOUNDS = 'K3: 2 contexts x <= 2 buffered events; K1: one context, <= 3 records, ts_now symbolic'
+OUTSIDE = 'the once-per-pass computation of ts_now from the clock and the grace period, has_pending_events_for_caching..., the poll/exit batch loops and the end-to-end ordering argument are NOT solved; backtrace replays are the documented exception'
 ASSUMPTIONS = ['an event stamped exactly 2^64-1 is excluded (it is never selected by the minimum search: observation recorded in DESIGN.md)']
 MANIFEST = {
- 'text': 'Reduced scope (one of the two mechanisms the property rests on): K3 - among everything buffered, the real backend always writes the statement with the minimum timestamp over ALL threads next, so the written sequence is non-decreasing whenever a later-stamped statement is never buffered before an earlier one is (which is what the hold-back is for). The hold-back itself (K1), the computation of ts_now once per pass and the composition are NOT solved.',
- 'note': 'Same queries as C03 K3. 2 contexts x <= 2 events. Trusted: clang IR, translator, CBMC.',
+ 'text': 'Reduced scope (the two mechanisms the property rests on, each as a kernel): K1 - the real read loop never takes a System/Tsc-clock record stamped later than the pass\'s cut-off ts_now, nor anything behind it in the same queue (they stay queued, unconsumed), while User-clock records are never held back; K3 - among everything buffered, the real backend always writes the statement with the minimum timestamp over ALL threads next, so the written sequence is non-decreasing whenever a later-stamped statement is never buffered before an earlier one is (which is what the hold-back is for). The computation of ts_now once per pass and the composition of the two kernels are NOT solved.',
+ 'note': 'Same queries as C03 K1/K3. 2 contexts x <= 2 events. Trusted: clang IR, translator, CBMC.',
  'technique': 'CBMC/SAT over clang IR of the real minimum-timestamp dispatch with symbolic timestamps; native replay',
 }
